@@ -6,6 +6,9 @@
 #include <fcppt/container/tree/level.hpp>
 #include <fcppt/container/tree/child_position.hpp>
 #include <fcppt/container/tree/pre_order.hpp>
+#include <fcppt/container/tree/map.hpp>
+#include <fcppt/container/tree/comparison.hpp>
+#include <fcppt/container/tree/to_root.hpp>
 #include <iterator>
 #include <utility>
 using tree = fcppt::container::tree::object<int>;
@@ -66,4 +69,13 @@ unsigned vf_tree_child_position(int v, int c){ unsigned bad = 0; tree t{mk2(v, c
   BAD(0, p0.has_value() && p0.get_unsafe() == t.begin()); BAD(1, p1.has_value() && p1.get_unsafe() == std::next(t.begin())); BAD(2, !pn.has_value()); return bad; }
 unsigned vf_tree_pre_order(int v, int c1, int c2, int g, int *out){ tree t{mk2(v, c1, c2)}; t.front().get_unsafe().get().push_back(g); unsigned n = 0;
   for (tree const &x : ft::pre_order<tree const>(t)) { if (n < 4) out[n] = x.value(); ++n; } return n; }
+unsigned vf_tree_map(int v, int c1, int g){ unsigned bad = 0; tree const t{mk3(v, c1, g)}; using utree = fcppt::container::tree::object<unsigned>;
+  utree const r{ft::map<utree>(t, [](int const x){ return static_cast<unsigned>(x) * 3U + 1U; })};
+  bool lk = true; for (utree const &c : r.children()) { auto const p = c.parent(); if (!p.has_value() || &p.get_unsafe().get() != &r) lk = false; for (utree const &d : c.children()) { auto const q = d.parent(); if (!q.has_value() || &q.get_unsafe().get() != &c) lk = false; } }
+  BAD(0, lk); BAD(1, !r.parent().has_value()); BAD(2, r.value() == static_cast<unsigned>(v) * 3U + 1U && r.size() == 1 && r.front().get_unsafe().get().value() == static_cast<unsigned>(c1) * 3U + 1U && r.front().get_unsafe().get().size() == 1 && r.front().get_unsafe().get().front().get_unsafe().get().value() == static_cast<unsigned>(g) * 3U + 1U);
+  BAD(3, links_ok(t) && t.value() == v); return bad; }
+unsigned vf_tree_equal(int v, int c1, int w, int d1){ unsigned bad = 0; tree const a{mk1(v, c1)}; tree const b{mk1(w, d1)}; tree const leaf{v};
+  BAD(0, (a == b) == (v == w && c1 == d1)); BAD(1, (a != b) == !(v == w && c1 == d1)); BAD(2, !(a == leaf) && (a != leaf)); BAD(3, a == a); return bad; }
+unsigned vf_tree_to_root(int v, int c1, int g, int *out){ tree t{mk3(v, c1, g)}; tree &leaf = t.front().get_unsafe().get().front().get_unsafe().get(); unsigned n = 0;
+  for (tree const &x : ft::to_root<tree const>(leaf)) { if (n < 4) out[n] = x.value(); ++n; } return n; }
 }
